@@ -660,7 +660,16 @@ func handleQueryCustom(app *BaseApp, path []string, req abci.RequestQuery) (res 
 	// cache wrap the commit-multistore for safety
 	ctx := sdk.NewContext(
 		newMS, app.checkState.ctx.BlockHeader(), true, app.logger,
-	).WithBlockStore(app.checkState.ctx.BlockStore()).WithAppVersion(app.appVersion)
+	).WithBlockStore(app.checkState.ctx.BlockStore()).WithAppVersion(app.appVersion).SetPrevCtx(true)
+	if req.Height != ctx.BlockHeight() {
+		// historical query: use the header that belongs to the queried state
+		hctx, err := sdk.NewContext(app.cms, app.checkState.ctx.BlockHeader(), true, app.logger).
+			WithBlockStore(app.checkState.ctx.BlockStore()).WithAppVersion(app.appVersion).PrevCtx(req.Height)
+		if err != nil {
+			return sdk.ErrInternal(err.Error()).QueryResult()
+		}
+		ctx = hctx
+	}
 
 	// Passes the rest of the path as an argument to the querier.
 	//
